@@ -125,3 +125,23 @@ def write_sites():
         if sites:
             out[qn] = sorted(sites)
     return out
+
+
+def env_names():
+    """names of environment variables the py_ecc sources mention (os.environ[...],
+    os.environ.get(...), os.getenv(...)): ambient inputs a simulated caller may set"""
+    import os
+    import re
+    import py_ecc
+    root = os.path.dirname(os.path.abspath(py_ecc.__file__))
+    pat = re.compile(r"""(?:environ(?:\.get)?\s*[\[(]|getenv\s*\()\s*['"]([A-Za-z_][A-Za-z0-9_]*)['"]""")
+    out = set()
+    for dp, _, files in os.walk(root):
+        for fn in files:
+            if fn.endswith(".py"):
+                try:
+                    with open(os.path.join(dp, fn), errors="replace") as f:
+                        out.update(pat.findall(f.read()))
+                except OSError:
+                    pass
+    return sorted(out)
